@@ -41,8 +41,8 @@ C2s == Call(ff, << vb, va >>)          Pw  == B("Power", S, KI(2))
 W0  == CSE0(S)                         Wp  == CSE(S, "s", EvalScope)
 Wx  == CSE(Sc, "", "pymbolic_expr")    Wg  == CSE(P, "p", "pymbolic_global")
 
-PoolAQuick == { Pw, S, Sc, P, W0, Wp, Q, C1, T1, T2 }
-PoolAMore  == { Pc, Qs, S3, C2, C2s, va, Wx, Wg, CSE0(va), CSE0(KI(2)), CSE(W0, "o", EvalScope),
+PoolAQuick == { Pw, S, Sc, P, W0, Wp, Wx, Q, C1, T1, T2 }
+PoolAMore  == { Pc, Qs, S3, C2, C2s, va, Wg, CSE0(va), CSE0(KI(2)), CSE(W0, "o", EvalScope),
                 B("FloorDiv", va, vb), B("Remainder", va, vb), KI(3),
                 CSE(N("Product", << S, vc >>), "n", EvalScope) }
 PoolA == IF Tier = "neg" THEN { S, Sc, P, T1, T2, W0 }      \* negative controls: tiny space
@@ -93,8 +93,16 @@ TagRootsThorough ==
   \cup { L(<< o, Bh, M >>) : o \in { N("Sum", << M, Cc >>), B("Quotient", M, Cc) } }
   \cup { L(<< N("Product", << N("Sum", << Cc, Cc >>), Cc >>), o >>) :
             o \in { B("Quotient", Cc, M), N("Sum", << Cc, M >>) } }
-TagRoots == IF Tier = "neg" THEN TagRootsNeg ELSE IF Tier = "quick" THEN TagRootsQuick
-            ELSE TagRootsThorough
+\* every taggable node kind repeated once across two expressions and once inside one
+\* expression (complete lists, no holes)
+KindReps == { S, P, Q, B("FloorDiv", va, vb), B("Remainder", va, vb), B("Power", va, KI(2)), C2 }
+KindRoots == { L(<< N("Product", << X, vc >>), N("Sum", << X, KI(2) >>) >>) : X \in KindReps }
+        \cup { L(<< B("Quotient", X, N("Sum", << X, vc >>)) >>) : X \in KindReps }
+        \cup { L(<< N("Product", << P, vc >>), N("Sum", << Pc, KI(2) >>) >>),      \* commuted twins
+               L(<< N("Product", << S, vc >>), N("Sum", << Sc, KI(2) >>) >>),
+               L(<< B("Quotient", Q, Qs) >>), L(<< N("Sum", << C2, C2s >>) >>) }  \* not twins
+TagRoots == IF Tier = "neg" THEN TagRootsNeg
+            ELSE KindRoots \cup (IF Tier = "quick" THEN TagRootsQuick ELSE TagRootsThorough)
 
 \* ---- the helper cells -----------------------------------------------------
 Arr1 == [t |-> "Arr", shape |-> << 3 >>, c |-> << S, KI(2), va >>]
@@ -115,7 +123,9 @@ WrapCells ==
 \* ---- state machine of the generator ----------------------------------------
 TagCase(tr) == [k |-> "tag", tr |-> tr]
 RandRoots == { L(<< A >>), L(<< A, A >>), L(<< A, A, A >>) }
-RandSkel == Ops2(A, A) \cup Ops2More(A, A) \cup Ops1(A)
+\* (no Power over two holes here: towers of powers make the real evaluator compute
+\* astronomically large integers)
+RandSkel == Ops2(A, A) \cup (Ops2More(A, A) \ { B("Power", A, A) }) \cup Ops1(A)
             \cup { CSE0(A), CSE(A, "r", EvalScope), CSE(A, "", "pymbolic_expr") }
 
 Init == /\ fuel = (IF Mode = "rand" THEN 6 ELSE 0)
